@@ -24,7 +24,6 @@ Acceptance and calibration: see CALIBRATION in vf/props/c15.py.
 """
 from __future__ import annotations
 
-import copy
 import json
 import time
 import warnings
